@@ -1,13 +1,14 @@
+\* default configuration (= quick tier "rpc-c2"); engines/watcher.py generates one cfg per configuration
 CONSTANTS
   Kind = "rpc"
   Confs = 2
   Window = 3
   Csv = 3
   L0 = 3
-  MaxNew = 3
+  MaxNew = 2
   MaxReorg = 1
   MaxFault = 1
-  MaxPoll = 2
+  MaxPoll = 1
   MaxTick = 1
   CbErr = FALSE
 INIT Init
